@@ -69,6 +69,10 @@ pub fn generate(rng: &mut Rng, _focus: &str, _thorough: bool) -> Case {
                         pt::KindSpec::Bel { edrv, .. } => edrv.map = pt::MapSpec::default(),
                         _ => {}
                     }
+                    // the shipped hybrid unit: its fuel / battery split search runs on a step counter of its own
+                    if rng.chance(0.15) {
+                        l.kind = pt::KindSpec::Hybrid;
+                    }
                     l
                 })
                 .collect();
@@ -559,7 +563,7 @@ pub fn execute(case: &Case, ctx: &mut Ctx) {
                 trn::Kind::SetSpeed { v0, trace, .. } => {
                     ctx.class.push(format!("io:setspeed:units{}", inner.train.consist.len()));
                     let Ok(tc) = trn::build_train_config(&inner.train) else { return };
-                    let its = InitTrainState::new(Some(inner.init_time * uc::S), None, Some(*v0 * uc::MPS));
+                    let its = InitTrainState::new(Some(inner.init_time * uc::S), inner.init_offset.map(|o| o * uc::M), Some(*v0 * uc::MPS));
                     let tsb = TrainSimBuilder::new("t0".into(), tc, trn::build_consist(&inner.train, inner.save_interval), None, None, Some(its));
                     let mut t = inner.init_time;
                     let (mut times, mut speeds) = (vec![t], vec![*v0]);
